@@ -175,7 +175,7 @@ COMMENT_ONLY = {'kthlist': 'c nothing here\nc at all\n', 'gml': '# nothing\n',
                 'dot': '// nothing\n', 'dimacs': 'c nothing here\n',
                 'matrix': 'c nothing\n', 'cnf': 'c nothing here\nc at all\n'}
 BINARY = b'\xff\xfe\x00\x9f p cnf \xc3\x28 1 2\n'
-GARBAGE = 'p cnf x y\n1 : : 0\n[ graph } -- -> e 1\n'
+GARBAGE = 'this is ( not a graph ]] 1 : : 0\n{ -- -> e 1 x\np\n'
 FILE_KINDS = ['missing', 'empty', 'comments', 'trunc', 'garbage', 'valid',
               'dir', 'unread', 'binary']
 STDIN_KINDS = ['empty', 'comments', 'trunc', 'garbage', 'valid', 'binary']
@@ -535,7 +535,7 @@ def gen_formats(tier, F):
     for d in F:
         name = d['name']
         vecs = list(small_vectors(d, A3 if thorough else A2))
-        sel = SELECTORS_CNFGEN if thorough else SELECTORS_CNFGEN[:12]
+        sel = SELECTORS_CNFGEN if thorough else SELECTORS_CNFGEN[:10]
         for s in sel:
             for w in vecs:
                 yield case('formats', 'cnfgen', name, s, [name] + w)
@@ -668,6 +668,8 @@ def gen_graph_grammar(tier):
         sub = 'graph:' + gt
         # depth 1: construction + numeric arguments in / outside the range
         for c, n in cons[gt].items():
+            if c == 'shift' and not thorough:
+                n = 3
             if thorough:
                 alpha = NUM7 if n <= 3 else NUM5
                 top = n + 1 if n <= 3 else n
@@ -696,28 +698,37 @@ def gen_graph_grammar(tier):
                     yield case(fam, 'cnfgen', sub, [], host + [f, 'x.' + f])
         # depth 2: a valid construction + one modifier with all its arguments
         names = sorted(set(list(mods['simple']) + list(mods['bipartite'])))
-        for b in MOD_BASES[gt]:
+        legal = {'plantclique': ['2'], 'addedges': ['1'],
+                 'splitedges': ['1'], 'plantbiclique': ['1', '1']}
+        for bi, b in enumerate(MOD_BASES[gt]):
+            full = thorough or bi == 0
             for m in names + ['bogus', 'complete', 'simple', 'dag', '-x', '--bogus']:
-                n = mods[gt].get(m, 1)
-                alpha = NUM7 if (thorough or n <= 1) else NUM5
-                for w in words(alpha, 0, n + 1):
+                if m in mods[gt]:
+                    n = mods[gt][m]
+                    if full:
+                        alpha = NUM7 if (thorough or n <= 1) else NUM5
+                        ws = words(alpha, 0, n + 1)
+                    else:
+                        ws = itertools.chain(words(['1', '3'], n, n), [[], ['0'] * n])
+                else:
+                    ws = words(NUM7 if thorough else ['1'], 0, 1)
+                for w in ws:
                     yield case(fam, 'cnfgen', sub, [], host + b + [m] + w)
                 for t in ('x', ''):
                     yield case(fam, 'cnfgen', sub, [], host + b + [m, t])
                     yield case(fam, 'cnfgen', sub, [], host + b + [m, '1', t])
             # two modifiers (order, repetition)
-            legal = {'plantclique': ['2'], 'addedges': ['1'],
-                     'splitedges': ['1'], 'plantbiclique': ['1', '1']}
             for m1 in mods[gt]:
                 for m2 in mods[gt]:
                     yield case(fam, 'cnfgen', sub, [], host + b + [m1] +
                                legal.get(m1, ['1']) + [m2] + legal.get(m2, ['1']))
             # save
-            for f in fmts[gt] + ['bogus']:
-                for target in (['g.' + f], [f, 'g.' + f], [f, 'g'], [f],
-                               ['g'], [f, 'nodir/g.' + f], [f, '{FX}/f_dir.cnf'],
-                               [f, 'g.' + f, 'extra'], [f, '']):
-                    yield case(fam, 'cnfgen', sub, [], host + b + ['save'] + target)
+            if full:
+                for f in fmts[gt] + ['bogus']:
+                    for target in (['g.' + f], [f, 'g.' + f], [f, 'g'], [f],
+                                   ['g'], [f, 'nodir/g.' + f], [f, '{FX}/f_dir.cnf'],
+                                   [f, 'g.' + f, 'extra'], [f, '']):
+                        yield case(fam, 'cnfgen', sub, [], host + b + ['save'] + target)
             yield case(fam, 'cnfgen', sub, [], host + b + ['save'])
             yield case(fam, 'cnfgen', sub, [], host + b + ['save', 'g.gml', 'save', 'h.gml'])
             for m1 in mods[gt]:
@@ -916,7 +927,7 @@ def gen_kthlist2pebbling(tier, T):
         for w in words(A3 if thorough else A2, a + 1, a + 1):
             yield case(fam, tool, sub, [], ok + [name] + w)
         yield case(fam, tool, sub, [], ok + [name, '-h'])
-        yield case(fam, tool, sub, [], ok + [name] + ['7'] * a)
+        yield case(fam, tool, sub, [], ok + [name] + ['4'] * a)
         yield case(fam, tool, sub, [], ['-i', '{FX}/dag_empty.kthlist', name] + ['2'] * a)
         if graph_type(d):
             for s in SPECS['bipartite'][:4] + [['glrd', '3', '2', '1'], ['x']]:
@@ -1079,7 +1090,7 @@ def judge(c, o):
         return 'violation', bad
     # ---- exit status != 0: must be a clean, shielded command line error ----
     if o.stdout != '':
-        looks = any(l.startswith(('p cnf', '* #variable', '\\documentclass', '\\begin',
+        looks = any(l.startswith(('p cnf ', '* #variable', '\\documentclass', '\\begin',
                                   'c description', '* description', '% description'))
                     or re.match(r'^(-?[0-9]+ )+0$', l)
                     for l in o.stdout.split('\n'))
@@ -1152,7 +1163,7 @@ def execute(c, sandbox, process=False):
 # =========================================================================
 # shards
 # =========================================================================
-NSHARDS = {'quick': 48, 'thorough': 64}
+NSHARDS = {'quick': 64, 'thorough': 64}
 PROCESS_TARGET = {'quick': 300, 'thorough': 2000}
 
 
@@ -1170,6 +1181,7 @@ def run_slice(args, R):
     total = len(cases)
     ncore = sum(1 for c in cases if c['core'])
     stride = max(1, total // max(1, PROCESS_TARGET.get(tier, 300) - ncore))
+    stride |= 1     # odd: the selected indices visit all slices evenly
     k, n = args['k'], args['n']
     if k == 0:
         R.stats['cases_total'] += total
